@@ -65,6 +65,13 @@ pub fn gen_scenario(property: &str, seed: u64) -> Scenario {
             }
             if r.chance(1, 3) {
                 t2.push(add(1, 0, 0, 0));
+            } else if r.chance(1, 2) {
+                // a read of an appointment whose breach is being answered at that moment
+                if prefix.iter().any(|o| matches!(o, Op::Add { u: 1, d: 1, .. })) && r.chance(1, 2) {
+                    t2.push(Op::Get { u: 1, d: 1, sig: Sig::Good });
+                } else {
+                    t2.push(Op::Get { u: 0, d: 0, sig: Sig::Good });
+                }
             }
         }
         1 => {
@@ -495,7 +502,7 @@ pub fn explore_scenario(sc: &Scenario, n_sched: usize) -> ScenarioOutcome {
             let (kind, what) = d.split_once('|').unwrap_or(("?", d.as_str()));
             out.found.push(CFound {
                 property: "C02",
-                signature: format!("C02|submission_after_owner_removed:{kind}|concurrent"),
+                signature: if kind == "RESP" { "C02|responded_before_node_given_penalty|concurrent".to_string() } else { format!("C02|submission_after_owner_removed:{kind}|concurrent") },
                 detail: format!("threads [{kinds}] under {spec:?}: {what}"),
                 strat: replay.clone(),
             });
@@ -577,7 +584,7 @@ pub fn recheck(sc: &Scenario, spec: &Option<StratSpec>, property: &str, signatur
                             let (kind, what) = d.split_once('|').unwrap_or(("?", d.as_str()));
                             o.found.push(CFound {
                                 property: "C02",
-                                signature: format!("C02|submission_after_owner_removed:{kind}|concurrent"),
+                                signature: if kind == "RESP" { "C02|responded_before_node_given_penalty|concurrent".to_string() } else { format!("C02|submission_after_owner_removed:{kind}|concurrent") },
                                 detail: what.to_string(),
                                 strat: None,
                             });
